@@ -800,7 +800,11 @@ func (g *c10gen) step(light bool) {
 	if g.r.Intn(6) == 0 {
 		g.emit("clone inc")
 	}
-	g.emit("upd inc")
+	if g.r.Intn(8) == 0 {
+		g.emit("load inc") // in-place reload of the used cache instead of the update (AppState.ResetTo, AtomicSwitchToPreliminary)
+	} else {
+		g.emit("upd inc")
+	}
 	g.emit("load fresh")
 	g.queries(light)
 }
